@@ -274,7 +274,7 @@ GROUPS = [ops_arith, ops_reduce, ops_extrema, ops_moments, ops_sets, ops_log, op
 def generate(seed, tier):
     rng = random.Random(seed)
     cases = []
-    rounds = 1500 if tier == "thorough" else 150
+    rounds = 5000 if tier == "thorough" else 500
     for i in range(rounds):
         for g in GROUPS:
             cases.append(["case %s%d" % (g.__name__[4:], i)] + g(rng))
@@ -319,4 +319,4 @@ def coverage_extra(cases, answers):
                 raised[r] += 1
             if r == "nan" or " nan" in r:
                 kinds["answer_nan"] += 1
-    return {"first_vector_length_histogram": dict(lens), "input_kinds": dict(kinds), "raised_by_kind": dict(raised)}
+    return {"first_argument_length_histogram": dict(lens), "input_kinds": dict(kinds), "raised_by_kind": dict(raised)}
